@@ -67,7 +67,7 @@ def random_line_obligations(tier, seed):
             bad = []
             for ln in lines:
                 for progl in ([ln], ["MSG EQU $1000", "K EQU 5", "START NOP", "LOOP NOP", ln, "ENDL NOP"]):
-                    o = assemble(progl)
+                    o = assemble(progl, wall_limit=20)
                     if o.kind in ("ok", "diag"):
                         continue
                     if ctx.known(PID, {"part": "random"}, {"kind": o.kind, "exc": o.exc_name, "site": o.site, "line": ln}):
@@ -175,7 +175,7 @@ def make_line(sh):
 
     def body(ctx):
         lines = ["MSG EQU $1000", "K EQU 5", "B EQU 7", "START NOP", "LOOP NOP", sh.raw, "ENDL NOP"]
-        out = assemble(lines)
+        out = assemble(lines, wall_limit=20)        # concrete text: a hang inside a library call counts as non-termination
         info = {"lines": lines, "outcome": out.describe()}
         if out.kind in ("ok", "diag"):
             return True, info
